@@ -369,6 +369,16 @@ func (c *cctx) useKey(key jwk.Key, how string) {
 	label := rng.Bytes(rng.PickInt(0, 0, 5, 64))
 	c.step("use key " + c.q(jwkJSON(key)) + " (" + how + ") msg=" + c.x(msg) + " label=" + c.x(label) + ": SerializeKey; Sign/Verify x " + fmt.Sprint(len(sigAlgs)) + " algs; Encrypt/DecryptPublicKey x " + fmt.Sprint(len(encAlgs)) + "; Encrypt/DecryptSymmetric x " + fmt.Sprint(len(symAlgs)))
 	ctr["keys.parsed_key_used"]++
+	// The cost of an RSA operation is polynomial in the size of the modulus (setting up a modulus: quadratic;
+	// an exponentiation: quadratic per multiplication) and the standard library sets no upper limit: with the
+	// ~96 KiB modulus a "long repeat" mutation of a JWK can produce, ONE signature check takes 5-18 s on an idle
+	// core, all inside crypto/rsa. That is slow, not for ever, and a wall-clock watchdog cannot tell the two
+	// apart: keys whose modulus is longer than 8192 bits are used through the slow-call path.
+	if n := rsaModulusBytes(key); n > 1024 {
+		ctr["keys.rsa_modulus_over_8192_bits_used_through_slow_calls"]++
+		c.slow = true
+		defer func() { c.slow = false }()
+	}
 	c.kSerialize(key)
 	for _, alg := range sigAlgs {
 		n := hashSize[alg]
@@ -402,6 +412,17 @@ func (c *cctx) useKey(key jwk.Key, how string) {
 		}
 		c.kDecSym(alg, key, ct, nonce, tag, label)
 	}
+}
+
+// rsaModulusBytes: length of the modulus if key is an RSA key, else 0.
+func rsaModulusBytes(key jwk.Key) int {
+	switch k := key.(type) {
+	case jwk.RSAPublicKey:
+		return len(k.N())
+	case jwk.RSAPrivateKey:
+		return len(k.N())
+	}
+	return 0
 }
 
 // parseKey calls crypto.ParseKey and returns the key if one was produced.
